@@ -257,7 +257,13 @@ def subst_atom(a, mapping):
     k = a[0]
     if k == "byte":
         return ("byte", a[1], _subst_key(a[2], mapping))
-    if k in ("mod", "div"):
+    if k == "mod":
+        # canonical representative: (t + j*m) mod m == t mod m
+        t = subst_deep(Lin.from_key(a[1]), mapping)
+        m = a[2]
+        r = Lin({x: c % m for x, c in t.t.items() if c % m}, t.c % m)
+        return ("mod", r.key(), m)
+    if k == "div":
         return (k, _subst_key(a[1], mapping), a[2])
     if k == "sl":
         return (k, _subst_key(a[1], mapping), a[2], a[3])
